@@ -482,11 +482,27 @@ class TemplateString(Expression):
         return sum(sys.getsizeof(expr) for expr in self.template)
 
     def evaluate(self, context: RenderContext) -> str:
+        if context.auto_escape:
+            # Literal parts are template text (Markup), interpolated values
+            # are escaped, as with `capture` or a chain of `append` filters.
+            return Markup("").join(
+                _to_liquid_string(expr.evaluate(context), auto_escape=True)
+                for expr in self.template
+            )
         return "".join(
             _to_liquid_string(expr.evaluate(context)) for expr in self.template
         )
 
     async def evaluate_async(self, context: RenderContext) -> object:
+        if context.auto_escape:
+            return Markup("").join(
+                [
+                    _to_liquid_string(
+                        await expr.evaluate_async(context), auto_escape=True
+                    )
+                    for expr in self.template
+                ]
+            )
         return "".join(
             [
                 _to_liquid_string(await expr.evaluate_async(context))
